@@ -291,6 +291,27 @@ impl Ctx {
                         }
                     }
                 }
+                // (D) the peeking interface: `peek(n)` on a fresh lexer neither panics nor misses a
+                // token — it is the n-th token of the iteration (sampled; F-C09-3)
+                if self.rep.evaluations % 97 == 3 && toks.iter().all(|t| !t.is_error) {
+                    for n in [0usize, 1, 2, 3, 5, 8] {
+                        let got = kvh::catch(|| Lexer::new(src).peek(n).map(|t| (t.source_bytes.start, t.source_bytes.end)));
+                        let want = toks.get(n).map(|t| (t.sb, t.eb));
+                        self.rep.bump("peek_checks");
+                        if got != Ok(want) {
+                            self.d_fail += 1;
+                            if self.d_fail <= 5 {
+                                self.rep.violation(
+                                    "D",
+                                    "C09:spec:peek",
+                                    json!({"input_hex": kvh::hex(src.as_bytes()), "input": src, "n": n,
+                                           "peek": format!("{:?}", got), "nth_token_of_iteration": format!("{:?}", want)}),
+                                );
+                            }
+                            break;
+                        }
+                    }
+                }
                 // (K)
                 if real_canon != model_canon {
                     self.k_fail += 1;
